@@ -19,7 +19,7 @@ RULE = ('Noll indices 1..231 (quick) / 1..1326 (thorough) enumerated completely 
 ASSUMPTIONS = ['the sign of sine modes is not pinned by the property: +sin and -sin are both accepted (per mode)']
 PLAN = {'quick': {'gen': 8}, 'thorough': {'gen': 16, 'tests': 1, 'docs': 1}}
 REQUIRED_BUCKETS = ['index', 'value:normalized', 'value:unnormalized', 'gram:diag', 'gram:offdiag', 'coords:even', 'coords:odd',
-                    'coords:offcentre', 'support-only', 'coords:shared', 'basis', 'compose:normalized', 'compose:unnormalized', 'theta:undefined-for-m=0', 'coords:narrow-float', 'value:high-order']
+                    'coords:offcentre', 'support-only', 'coords:shared', 'basis', 'compose:normalized', 'compose:unnormalized', 'theta:undefined-for-m=0', 'coords:narrow-float', 'value:high-order', 'coords:rho>1', 'coords:result-edited']
 REQUIRED_ANCHORS = ['probe:zernike_index', 'anchor:R', 'anchor:zernike', 'anchor:zernike_coordinates']
 REQUIRED_ORACLES = ['index=noll', 'index:bijective', 'mode=textbook', 'R(1)=1', 'gram=I', '|Z|<=1', 'rho=centroid-distance',
                     'origin=centroid', 'zero-outside', 'support-only']
@@ -116,6 +116,12 @@ def workload(ctx, lentil):
             rho.flat[-1] = 0.0
         theta = rng.uniform(-2 * np.pi, 2 * np.pi, size=shape)
         normalize = bool(rng.random() < 0.5)
+        beyond = i % 6 == 4 and _NOLL[j][0] <= 20
+        if beyond:
+            # coordinates normalised to something smaller than the aperture (the inscribed circle of a hexagon): rho > 1 inside the
+            # mask is a polar coordinate like any other
+            rho = rho * float(rng.uniform(1.05, 1.4))
+            ctx.bucket('coords:rho>1')
         mask = np.ones(shape) if rng.random() < 0.5 else (rng.random(shape) < 0.7).astype(float)
         desc = {'mode': j, 'shape': list(shape), 'normalize': normalize, 'pts': probe.fp_array(rho)[:8]}
         ctx.case(desc, ['value:normalized' if normalize else 'value:unnormalized'], nontrivial=j > 1)
@@ -149,9 +155,11 @@ def workload(ctx, lentil):
         if j > 378:
             ctx.bucket('value:high-order')
         # a well-conditioned evaluation of the mode is good to a few (n+4) ulp of its largest value sqrt(2(n+1)) (or 1)
+        # (beyond the unit circle the polynomial grows quickly: the yardstick there is the largest value of the mode itself)
         cmp_mode(ctx, 'mode|value', 'mode differs from the textbook radial polynomial times its azimuthal factor',
-                 np.asarray(got, float), ref, par, desc, tol=64 * (n + 4) * rm.EPS * (np.sqrt(2 * (n + 1))), scale=1.0)
-        if not normalize:
+                 np.asarray(got, float), ref, par, desc, tol=64 * (n + 4) * rm.EPS * (np.sqrt(2 * (n + 1))),
+                 scale=max(1.0, float(np.max(np.abs(ref)))) if beyond else 1.0)
+        if not normalize and not beyond:
             ctx.check(bool(np.all(np.abs(got) <= 1 + 64 * (n + 4) * rm.EPS)), '|Z|<=1', 'mode|bounded',
                       'unnormalised mode exceeds 1 in magnitude on the unit disk', desc)
         # radial polynomial is 1 at the rim
@@ -271,6 +279,17 @@ def workload(ctx, lentil):
         desc = {'coords': list(shape), 'mask': probe.fp_array(mask)[:10], 'centroid': [cr, cc]}
         ctx.case(desc, ['coords:odd' if odd else 'coords:even'] + (['coords:offcentre'] if off else []),
                  nontrivial=int(mask.sum()) > 2)
+        if i % 3 == 1:
+            # a caller who asked for the coordinates before owns what was returned and may edit it in place (rotate theta, rescale
+            # rho): later default coordinates of the same mask are still measured from the centroid
+            try:
+                with probe.quiet():
+                    r_own, t_own = lentil.zernike_coordinates(mask.astype(float))
+                np.multiply(r_own, 1.7, out=r_own)
+                np.add(t_own, 0.9, out=t_own)
+            except Exception:
+                pass            # (read-only results are fine: then there is nothing to edit)
+            ctx.bucket('coords:result-edited')
         try:
             rho_l, theta_l = lentil.zernike_coordinates(mask.astype(float))
         except Exception as e:
